@@ -144,6 +144,10 @@ func rulesC08(w *World, r *Report) {
 		return
 	}
 	r.Rule("C08.R2", "guard-dominates: in copyOneFile the layout-equality check (source header vs destination header) and the window/step agreement check (source list vs destination list) guard the write; their failing edges reach only failure returns", 4)
+	ruleLayoutEquality(w, r, "C08.R2")
+	ruleWindowEquality(w, r, "C08.R2")
+	rulePointsListAllEmpty(w, r, "C08.R5")
+	ruleListDiffElementwise(w, r, "C08.R5")
 	r.Rule("C08.R3", "derives-from: source and destination are read with the same archive id, from, until and one reading of the clock", 5)
 	r.Rule("C08.R4", "derives-from: the value written comes from Diff under CopyNaN and from DiffExcludeSrcNaN otherwise", 2)
 	r.Rule("C08.R5", "derives-from: what is written is result #0 (source side) of source.Diff*(destination), to the destination handle, at the reads' clock; early success requires empty diff lists; a missing destination is created from the command's layout", 5)
@@ -206,6 +210,11 @@ func rulesC09(w *World, r *Report) {
 		return
 	}
 	r.Rule("C09.R2", "return classification: diffOneFile returns ErrDiffFound for a missing side and after listing, nil only under AllEmpty of source.Diff(destination), an error when layouts or windows disagree; the listing gets both headers and both sides of one Diff call", 10)
+	ruleLayoutEquality(w, r, "C09.R2")
+	ruleWindowEquality(w, r, "C09.R2")
+	rulePointsListAllEmpty(w, r, "C09.R2")
+	ruleListDiffElementwise(w, r, "C09.R2")
+	ruleNotExistWrap(w, r, "C09.R4")
 	r.Rule("C09.R3", "latched verdict: in execute the flag selecting the final ErrDiffFound is only ever set to the constant true, under errors.Is(err, ErrDiffFound)", 1)
 	r.Rule("C09.R4", "derives-from: the source read is wrapped with WrapFileNotExistError(Source, ·) and the destination read with (Destination, ·)", 2)
 	r.Rule("C09.R5", "return classification: main.run maps errors.Is(err, cmd.ErrDiffFound) to exit status 1, other errors to a status other than 0 and 1, success to 0", 3)
@@ -238,6 +247,11 @@ func rulesC11(w *World, r *Report) {
 		return
 	}
 	r.Rule("C11.R1", "sibling skeleton: sumCopyItem satisfies copy's obligations (one clock, checks guard the write, source side of Diff — never DiffExcludeSrcNaN — to the destination handle at the reads' clock)", 12)
+	ruleLayoutEquality(w, r, "C11.R1")
+	ruleWindowEquality(w, r, "C11.R1")
+	rulePointsListAllEmpty(w, r, "C11.R1")
+	ruleListDiffElementwise(w, r, "C11.R1")
+	ruleNotExistWrap(w, r, "C11.R3")
 	r.Rule("C11.R2", "derives-from: sum-copy and sum-diff obtain the sum from sumWhisperFile(SrcBase, item, SrcPattern, ...)", 2)
 	r.Rule("C11.R3", "return classification: sumDiffItem has diff's verdict structure and execute latches the verdict", 8)
 	if sc := need(w, r, "C11.R1", w.Cmd, "SumCopyCommand.sumCopyItem"); sc != nil {
@@ -588,6 +602,7 @@ func ruleValueTables(w *World, r *Report, rule string, equal, diff, add bool) {
 // slot is appended iff t!=t2 || !Equal(v,v2) [&& !IsNaN(v)].
 func ruleDiffPredicates(w *World, r *Report, rule string) {
 	r.Rule(rule, "truth table (T6) of the slot-inclusion predicate inside the loop of DiffPoints (t≠t2 ∨ ¬Equal(v,v2)) and DiffPointsExcludeSrcNaN (… ∧ ¬IsNaN(v)), v the receiver's value and v2 the argument's at the same index; both sides appended together; length mismatch returns all points", 2)
+	ruleDiffLengthGuard(w, r, rule)
 	for _, sp := range []struct {
 		name    string
 		exclNaN bool
@@ -801,6 +816,8 @@ func rulesC10(w *World, r *Report) {
 	}
 	f := a.sumWhisperFileLocal
 	r.Rule("C10.R2", "guard-dominates: in sumWhisperFileLocal the layout loop (file 0 vs file i, i over 1..n-1) and the window/step loop, each with a failing edge, dominate sumTimeSeriesListList; all files are read with the same archive id/from/until/now", 7)
+	ruleLayoutEquality(w, r, "C10.R2")
+	ruleWindowEquality(w, r, "C10.R2")
 	stll := fn(w.Cmd, "sumTimeSeriesListList")
 	var sumCall *ssa.Call
 	for _, c := range callsTo(f, stll) {
@@ -960,9 +977,21 @@ func rulesC10(w *World, r *Report) {
 			}
 			// loops: range over all files and all slots
 			full := 0
+			// the first file may be peeled off: the accumulator is then initialised by copy(acc, file 0's values)
+			peeled := false
 			eachInstr(sf, func(in ssa.Instruction) {
-				if ph, ok := in.(*ssa.Phi); ok && isIntType(ph.Type()) && loopFromTo(ph, -1) {
-					full++
+				if c, ok := in.(*ssa.Call); ok && isBuiltin(c, "copy") && len(c.Common().Args) == 2 {
+					ex := newExprCtx(w)
+					if ex.expr(c.Common().Args[0]) == ex.expr(acc) && ex.expr(c.Common().Args[1]) == "p0[0][p1].values" {
+						peeled = true
+					}
+				}
+			})
+			eachInstr(sf, func(in ssa.Instruction) {
+				if ph, ok := in.(*ssa.Phi); ok && isIntType(ph.Type()) && isLoopHeaderPhi(ph) {
+					if loopFromTo(ph, -1) || loopFromTo(ph, 0) || (peeled && loopFromTo(ph, 1)) {
+						full++
+					}
 				}
 			})
 			r.Check(full >= 2, "C10.R4", "sumTimeSeriesListForArchive:loops", w.pos(sf.Pos()), "both loops start at the first element and step by one", "the file/slot loops do not cover every file and every slot from the first")
